@@ -25,6 +25,7 @@ type Op struct {
 	Extends bool   // conj/concat/splice style growth of Parent
 	View    bool   // subvec/rest/seq/vec/with-meta style view of Parent
 	Call    bool   // closure: calling it returns a value that must stay the same
+	Want    string `json:",omitempty"` // the value the expression must have (a literal), where the history cannot tell
 	Same    string `json:",omitempty"` // closure: what it returns is the value bound to this name (captured before a nested let bound the name again)
 }
 
@@ -123,7 +124,11 @@ func (g *hg) key() string {
 }
 
 func (g *hg) literal() Op {
-	switch g.pick("lit", 15) {
+	switch g.pick("lit", 17) {
+	case 15: // a sequence whose first item is a list
+		return Op{Expr: "(list (list 1 2) 7 8 9)", Kind: "list"}
+	case 16:
+		return Op{Expr: "[(list 1 2) 7 8 9 10]", Kind: "vec"}
 	case 12: // nested three levels deep
 		return Op{Expr: "{:a {:b {:c 1 :d [1 2]} :e 2} :f [[[1 2] 3] 4]}", Kind: "deepmap"}
 	case 13:
@@ -159,7 +164,7 @@ func (g *hg) literal() Op {
 func (g *hg) step() Op {
 	seqKinds := []string{"list", "vec"}
 	for tries := 0; tries < 6; tries++ {
-		switch c := gen.Uniform(g.t, "op", 38); {
+		switch c := gen.Uniform(g.t, "op", 40); {
 		case c == 0:
 			return g.literal()
 		case c <= 3:
@@ -399,6 +404,13 @@ func (g *hg) step() Op {
 					return Op{Expr: "(nth (nth " + p + " 0) 0)", Kind: "vec", Parent: p, View: true}
 				}
 			}
+		case c == 37: // the collection itself is the argument list of a variadic builtin
+			if p, ok := g.parent("list", "vec"); ok {
+				return Op{Expr: "(try (apply conj " + p + ") (catch e :not-applicable))", Kind: "scalar", Parent: p}
+			}
+		case c == 38: // an update function that keeps its argument list, applied twice because the atom changed under it
+			return Op{Expr: "(let (at (atom 0) seen (atom [])) (do (swap! at (fn (& xs) (do (swap! seen conj xs) (if (= (first xs) 0) (reset! at 100)) (count xs))) 5) (deref seen)))",
+				Kind: "vec", Want: "[(0 5) (100 5)]"}
 		case c == 36: // a handler whose catch variable is named like a bound value
 			if p, ok := g.parent("list", "vec", "map", "set", "deepmap"); ok {
 				return Op{Expr: "(try (throw \"boom\") (catch " + p + " (count " + p + ")))", Kind: "scalar"}
@@ -492,6 +504,12 @@ func check(c Case) pbt.Verdict {
 			v.Labels = append(v.Labels, "op-error:"+opName(o.Expr))
 		} else {
 			v.Labels = append(v.Labels, "op:"+opName(o.Expr))
+			if o.Want != "" {
+				wr := box.ReadEval(ctx, "(quote "+o.Want+")", e)
+				if got := val.From(r.Val); wr.Err == nil && !val.EqLisp(got, val.From(wr.Val)) {
+					return pbt.Failf("wrong-value:"+opName(o.Expr), "step %d  (def %s %s)  gives %s, must give %s\nhistory:\n%s", i, o.Name, o.Expr, val.Canon(got), o.Want, c.Text())
+				}
+			}
 			s := snap{name: o.Name, origin: o.Expr}
 			if o.Call {
 				cr := box.ReadEval(ctx, "("+o.Name+")", e)
